@@ -20,17 +20,17 @@ CLAIMED = {
    design="DESIGN.md §4 C01"),
  "C14": dict(level="exploration", engine="e2-iso",
    technique="exhaustive pairs (predecessor execution A, execution B) over all complete schedules and all scheduler-stopped prefixes of bodies using per-execution state; differential oracle B-after-A vs B-alone plus a drop ledger",
-   text="Bodies use thread_local!, lazy_static!, a static Once, labels, vector clocks, context_switches, the step counter and drop-counted values on stacks / in statics / in thread-locals. Every complete schedule B is run as the second execution of one Runner::run after every A in {complete schedules} U {every proper prefix stopped by the scheduler}, and alone: B's complete observation log (task ids, results, clocks, counters, labels, initialisations) must be identical and no value created in A may be alive when B starts.",
+   text="Bodies use thread_local!, lazy_static!, a static Once, labels, vector clocks, context_switches, the step counter and drop-counted values on stacks / in statics / in thread-locals. Every complete schedule B is run as the second execution of one Runner::run after every A in {complete schedules} U {every proper prefix stopped by the scheduler}, and alone: B's complete observation log (task ids, results, clocks, counters, labels, initialisations) must be identical and no value created in A may be alive when B starts. Also: every spawned closure owns a drop-counted value (closures of never-scheduled tasks of abandoned executions must be destroyed), and predecessors taken from another body (cross-body pairs).",
    note="ContinueAfter cuts share the teardown path and are covered by C13's grid. Small bodies (6 programs, <= 60 schedules each).",
    design="DESIGN.md §4 C14"),
  "C15": dict(level="exploration", engine="e2-clock",
    technique="stateless exhaustive exploration with shuttle::current::clock() sampled after every operation; happens-before edges derived from the log by API-level rules; target-clock replay of every execution",
-   text="On every execution of the generated programs of 7 families: every required happens-before edge (program order, spawn, join, scope, unlock->lock, rwlock, atomic write->read, send->recv, bounded back-edge, notify_all->wait, barrier, once, flag store->load) is reflected by clock dominance; two tasks are clock-ordered only if a chain of object accesses connects them; clocks never decrease; ReplayScheduler::set_target_clock on the recorded schedule never fails and reproduces everything in the target's happens-before past.",
+   text="On every execution of the generated programs of 7 families: every required happens-before edge (program order, spawn, join, scope, unlock->lock, rwlock, atomic write->read, send->recv, bounded back-edge, notify_all->wait, barrier, once, flag store->load) is reflected by clock dominance; two tasks are clock-ordered only if a chain of object accesses connects them; clocks never decrease; ReplayScheduler::set_target_clock on the recorded schedule never fails and reproduces everything in the target's happens-before past. Semaphore: release -> acquire by necessity and by conservation of causality (when every permit has been taken again each release is in the past of some acquisition).",
    note="Two-relation form (must / may) so documented over-approximations raise no alarm; for Once and mpsc the source of the edge is the sender's state before the operation (the operation itself may advance the clock after publishing).",
    design="DESIGN.md §4 C15"),
  "C02": dict(level="model_checking", engine="e2-all",
    technique="explicit-state BFS of strict sequentially-consistent reference models (all interleavings at operation granularity) vs. the set of outcomes over ALL schedules of the real runtime enumerated by the explorer-scheduler; outcome-set inclusion per program",
-   text="For every generated program of the 7 primitive families (Mutex/RwLock, atomics, Condvar/Barrier/Once/park, mpsc, spawn/join/scope/TLS, BatchSemaphore, async tasks) the set of outcomes (per-thread results + ending) of the strict model must be contained in the set produced by the fully explored schedule tree: an outcome nobody produces is an interleaving the runtime cannot reach (a missing scheduling point). Missing outcomes are attributed to a recorded finding only if the model with exactly that operation fused to its predecessor has all its outcomes produced.",
+   text="For every generated program of the 7 primitive families (Mutex/RwLock, atomics, Condvar/Barrier/Once/park, mpsc, spawn/join/scope/TLS, BatchSemaphore, async tasks) the set of outcomes (per-thread results + ending) of the strict model must be contained in the set produced by the fully explored schedule tree: an outcome nobody produces is an interleaving the runtime cannot reach (a missing scheduling point). Missing outcomes are attributed to a recorded finding only if the model with exactly that operation fused to its predecessor has all its outcomes produced. Extra sets: gated park/unpark programs (every other task blocked, so no spurious wake-up can mask a lost order), every entry point of the int/bool/ptr atomics, and in the quick tier a stride sample beyond the 700 simplest programs of each family. Missing outcomes explained by the weakened model of a recorded deviation (F14) are attributed to it.",
    note="Trusted: strict reference models; judged only on fully explored trees; programs with JoinHandle::abort are excluded (abort timing is modelled loosely). Small-scope hypothesis.",
    design="DESIGN.md §4 C02"),
  "C03": dict(level="model_checking", engine="e2-all",
@@ -40,7 +40,7 @@ CLAIMED = {
    design="DESIGN.md §4 C03"),
  "C08": dict(level="exploration", engine="e2-all+wrappers",
    technique="stateless exhaustive exploration with a contract checker at every scheduler call, incl. exhaustive 'scheduler returns None here' children; wrapper transparency by comparing complete choice trees",
-   text="At every decision of every execution of the 7 families: runnable list non-empty, strictly ascending, only runnable/spuriously-wakeable tasks, contains every task the strict model can run, current_task = previously chosen task, is_yielding exactly after an explicit yield, only the chosen task's code runs between decisions; a second pass answers None at every decision of every execution (run must continue without failure); Metrics and UncontrolledNondeterminismCheck wrappers must expose the identical choice tree to the inner scheduler.",
+   text="At every decision of every execution of the 7 families: runnable list non-empty, strictly ascending, only runnable/spuriously-wakeable tasks, contains every task the strict model can run, current_task = previously chosen task, is_yielding exactly after an explicit yield, only the chosen task's code runs between decisions; a second pass answers None at every decision of every execution (run must continue without failure); Metrics and UncontrolledNondeterminismCheck wrappers must expose the identical choice tree to the inner scheduler. The explorer itself records any scheduler call that follows its own None answer within one execution; transparency also for AnnotationScheduler and PortfolioRunner's stop wrapper, over a sample of generated programs.",
    note="Trusted: reference models for 'able to run'; decision stamps for 'no foreign code'. AnnotationScheduler needs the `annotation` feature and is not exercised.",
    design="DESIGN.md §4 C08"),
  "C09": dict(level="exploration", engine="sched",
@@ -70,22 +70,22 @@ CLAIMED = {
    design="DESIGN.md §4 C13"),
  "C04": dict(level="model_checking", engine="e2-lock,e2-atomic",
    technique="stateless exhaustive exploration of the real primitives under an explorer plugged in as Shuttle's Scheduler + explicit-state BFS of a reference lock model + step-by-step co-simulation (trace conformance) of every execution",
-   text="Every schedule of every generated program (<=3 threads, <=3-4 ops each over Mutex/RwLock lock/try/unlock incl. re-entrant tries) is executed against the real shuttle::sync primitives and co-simulated on a contract model (holder/readers/writer): each return value, each point where a task that could run is not offered, and each ending must be allowed by the model. Exhaustive within the stated program sizes.",
+   text="Every schedule of every generated program (<=3 threads, <=3-4 ops each over Mutex/RwLock lock/try/unlock incl. re-entrant tries) is executed against the real shuttle::sync primitives and co-simulated on a contract model (holder/readers/writer): each return value, each point where a task that could run is not offered, and each ending must be allowed by the model. Exhaustive within the stated program sizes. Also: every read-modify-write entry point of AtomicI8/U8/I64/Bool/Ptr raced on one variable (rmw set, soundness and completeness), RwLock poisoning (a panicking writer poisons, a panicking reader does not).",
    note="Trusted: the reference model (Appendix A of DESIGN.md), the explorer's determinism self-check, Shuttle's own Task::runnable() flags only for preemption counting. Small-scope hypothesis for program size.",
    design="DESIGN.md §4 C04"),
  "C05": dict(level="model_checking", engine="e2-sync",
    technique="stateless exhaustive exploration of real Condvar/Barrier/Once/park programs under the explorer-scheduler + explicit-state BFS of reference models + step-by-step co-simulation of every execution",
-   text="Every schedule of every generated program over Condvar wait/wait_while/notify_one/notify_all (2-4 waiters/notifiers, racing notify_one, the 5-thread epoch scenario), Barrier (bounds 0-3, reuse, two barriers), Once (racing and nested call_once, is_completed), park/unpark (tokens, double unpark, spurious wake-ups), also inside thread::scope bodies, is run on the real primitives and co-simulated on contract models: a wait returns only after a matching notification, notify_one releases at most one present waiter, barrier groups/leader, exactly one initialiser, token is boolean; lost wake-ups show up as a model-enabled task that is not offered or as a deadlock the model does not have.",
+   text="Every schedule of every generated program over Condvar wait/wait_while/notify_one/notify_all (2-4 waiters/notifiers, racing notify_one, the 5-thread epoch scenario), Barrier (bounds 0-3, reuse, two barriers), Once (racing and nested call_once, is_completed), park/unpark (tokens, double unpark, spurious wake-ups), also inside thread::scope bodies, is run on the real primitives and co-simulated on contract models: a wait returns only after a matching notification, notify_one releases at most one present waiter, barrier groups/leader, exactly one initialiser, token is boolean; lost wake-ups show up as a model-enabled task that is not offered or as a deadlock the model does not have. Also: the same programs through wait_timeout(_while) / park_timeout / call_once_force (-alt sets), park/unpark mixed with barrier, condvar, join, scope end, mutex and blocking channel operations.",
    note="Trusted: reference models (Appendix A), explorer determinism self-check. No spurious Condvar wake-ups are modelled because the property says wait returns only after a notification. Small-scope hypothesis.",
    design="DESIGN.md §4 C05"),
  "C06": dict(level="model_checking", engine="e2-mpsc",
    technique="stateless exhaustive exploration of real mpsc programs under the explorer-scheduler + explicit-state BFS of a FIFO channel model + step-by-step co-simulation of every execution",
-   text="Every schedule of every generated program (1-3 senders incl. main, one receiver, capacities unbounded/0/1/2, send/try_send/recv/try_recv, explicit drop of every endpoint at every position, recv inside scope bodies) on the real channels, co-simulated on a FIFO model with FIFO blocked-sender queue: every returned value/error, every blocking and every wake-up must be allowed by the model (exactly-once, order, capacity, rendezvous hand-off, drain-before-disconnect follow from the model's state invariants).",
+   text="Every schedule of every generated program (1-3 senders incl. main, one receiver, capacities unbounded/0/1/2, send/try_send/recv/try_recv, explicit drop of every endpoint at every position, recv inside scope bodies) on the real channels, co-simulated on a FIFO model with FIFO blocked-sender queue: every returned value/error, every blocking and every wake-up must be allowed by the model (exactly-once, order, capacity, rendezvous hand-off, drain-before-disconnect follow from the model's state invariants). Also: recv through recv_timeout / iter (-alt set) and park/unpark around blocking send / recv (mix set).",
    note="Trusted: the channel model (Appendix A); loose variant (blocked senders in any order) judges return values, strict (FIFO, Shuttle's documented discipline) judges which tasks must be runnable. Small-scope hypothesis.",
    design="DESIGN.md §4 C06"),
  "C07": dict(level="model_checking", engine="e2-thread",
    technique="stateless exhaustive exploration of real spawn/join/scope/thread-local programs under the explorer-scheduler + reference model co-simulation + life-cycle monitor over logged init/drop events",
-   text="Every schedule of every generated program with nested spawns, joins in every order and by non-parents, unjoined threads, scopes (nested, with 1-2 scoped threads), named threads, thread::current(), and three thread-local keys whose destructors log, touch another key, or contain a scheduling point and touch themselves, plus a const-initialised key: closure runs once, join returns the closure's value after all of the child's destructors, scope end waits for scoped threads, per-thread instances, destruction exactly once in initialisation order, AccessError instead of resurrection, ids/names consistent.",
+   text="Every schedule of every generated program with nested spawns, joins in every order and by non-parents, unjoined threads, scopes (nested, with 1-2 scoped threads), named threads, thread::current(), and three thread-local keys whose destructors log, touch another key, or contain a scheduling point and touch themselves, plus a const-initialised key: closure runs once, join returns the closure's value after all of the child's destructors, scope end waits for scoped threads, per-thread instances, destruction exactly once in initialisation order, AccessError instead of resurrection, ids/names consistent. Also: ScopedJoinHandle::join inside the scope.",
    note="Trusted: the expected thread-local event sequence computed by the monitor from the program text; model for spawn/join/scope. Small-scope hypothesis.",
    design="DESIGN.md §4 C07"),
  "C16": dict(level="exploration", engine="c16",
@@ -95,12 +95,12 @@ CLAIMED = {
    design="DESIGN.md §4 C16"),
  "C17": dict(level="model_checking", engine="e2-async",
    technique="stateless exhaustive exploration of real async programs (future::spawn / block_on / yield_now / JoinHandle await-abort-drop-is_finished / hand-written leaf futures) under the explorer-scheduler + explicit-state BFS of an executor model + step-by-step co-simulation + future-drop monitor",
-   text="Every schedule of every generated program with 3 tasks (main under block_on): leaf futures that register the polling task's waker and are woken by another task, by themselves during poll (yield_now), or never; futures created and first polled in one task and awaited in another; nested block_on inside a task; JoinHandle awaited / aborted (before first poll, while pending, after completion, twice) / dropped (detach) / is_finished; nested spawns. Co-simulated on the executor model: a task able to progress is offered, a never-woken task is not; await yields the output exactly once or Cancelled iff the abort took effect, in which case the future was dropped before and performs no further step; detached tasks are cut off and never cause a deadlock report.",
+   text="Every schedule of every generated program with 3 tasks (main under block_on): leaf futures that register the polling task's waker and are woken by another task, by themselves during poll (yield_now), or never; futures created and first polled in one task and awaited in another; nested block_on inside a task; JoinHandle awaited / aborted (before first poll, while pending, after completion, twice) / dropped (detach) / is_finished; nested spawns. Co-simulated on the executor model: a task able to progress is offered, a never-woken task is not; await yields the output exactly once or Cancelled iff the abort took effect, in which case the future was dropped before and performs no further step; detached tasks are cut off and never cause a deadlock report. Also: the same programs through spawn_local / AbortHandle::{abort, is_finished} (-alt set).",
    note="Trusted: executor model (Appendix A); abort timing is loose (cancellation may happen at any later poll, never inside a nested block_on). Small-scope hypothesis.",
    design="DESIGN.md §4 C17"),
  "C18": dict(level="model_checking", engine="e2-sem",
    technique="stateless exhaustive exploration of real BatchSemaphore programs under the explorer-scheduler + explicit-state BFS of a counter+queue model with permit ledger + step-by-step co-simulation; executions the reference model rejects are re-checked against a weakened model that encodes the two recorded findings",
-   text="Every schedule of every generated program over acquire_blocking/try_acquire/release/close/available_permits and manually polled, awaited, cancelled and handed-over Acquire futures, permits 0-1 (0-3 thorough), batch sizes 1-2, both fairness modes, 2-3 tasks, on the real semaphore; co-simulated on the reference model (strict FIFO with grant in the releasing step / bag of waiters), whose ledger invariant avail+acquired+granted = initial+released is asserted in every state.",
+   text="Every schedule of every generated program over acquire_blocking/try_acquire/release/close/available_permits and manually polled, awaited, cancelled and handed-over Acquire futures, permits 0-1 (0-3 thorough), batch sizes 1-2, both fairness modes, 2-3 tasks, on the real semaphore; co-simulated on the reference model (strict FIFO with grant in the releasing step / bag of waiters), whose ledger invariant avail+acquired+granted = initial+released is asserted in every state. Also: cancellation of a queued request with further requests queued behind it (with a scheduling point between joining and leaving the queue).",
    note="Trusted: the reference model (Appendix A) and, for the two known findings only, the weakened model that describes them precisely (so any other deviation is still a violation). Small-scope hypothesis.",
    design="DESIGN.md §4 C18"),
 }
